@@ -22,6 +22,13 @@
 // call in an accepted context may still be reported (Key needs a map attribute,
 // Body needs a response whose parent is an endpoint...), and the model makes no
 // prediction for accepted contexts of such a function.
+//
+// Data-type guards: where the function tests the Type of the attribute it got from
+// eval.Current() (x.Type.(*expr.Object) in comma-ok form, a type switch on x.Type,
+// expr.IsObject(x.Type) ...), the tests are listed (`exact T` / `is T`): Attribute and
+// everything that delegates to it accept an attribute whose type is exactly an
+// *expr.Object or *expr.Union, Key a *expr.Map, Elem an array or a map, Required
+// anything expr.IsObject sees as an object.
 package main
 
 import (
@@ -41,6 +48,7 @@ type entry struct {
 	Name   string   `json:"name"`
 	Kind   string   `json:"kind"` // KStrict | KSilent | KAny | KUnknown
 	Nested bool     `json:"nested"`
+	Guards []string `json:"guards"` // checks on the DATA TYPE of the context attribute: "exact Object", "is Object", ...
 	Types  []string `json:"types"` // Go type names as written in the source
 	Why    string   `json:"why,omitempty"`
 	Via    []string `json:"via,omitempty"`
@@ -300,6 +308,115 @@ func (a *analyzer) analyze1(name string) *entry {
 		}
 		return &entry{Name: name, Kind: "KAssert", Types: asserts}
 	}
+	// data-type guards on the context attribute
+	// only variables that can hold an attribute context (*expr.AttributeExpr or an
+	// expr.CompositeExpr) are followed: the guards describe attribute contexts
+	attrLike := func(ts []ast.Expr) bool {
+		for _, t := range ts {
+			switch typeString(t) {
+			case "*expr.AttributeExpr", "expr.CompositeExpr", "*expr.MappedAttributeExpr":
+				return true
+			}
+		}
+		return false
+	}
+	ctxVars := map[string]bool{}
+	walk(fd.Body, func(x ast.Node) bool {
+		switch n := x.(type) {
+		case *ast.TypeSwitchStmt:
+			if as, ok := n.Assign.(*ast.AssignStmt); ok {
+				if ta, ok := as.Rhs[0].(*ast.TypeAssertExpr); ok && isCur(ta.X) {
+					var all []ast.Expr
+					for _, cl := range n.Body.List {
+						all = append(all, cl.(*ast.CaseClause).List...)
+					}
+					if id, ok := as.Lhs[0].(*ast.Ident); ok && attrLike(all) {
+						ctxVars[id.Name] = true
+					}
+				}
+			}
+		case *ast.AssignStmt:
+			if len(n.Lhs) == 2 && len(n.Rhs) == 1 {
+				if ta, ok := n.Rhs[0].(*ast.TypeAssertExpr); ok && ta.Type != nil && isCur(ta.X) {
+					if id, ok := n.Lhs[0].(*ast.Ident); ok && id.Name != "_" && attrLike([]ast.Expr{ta.Type}) {
+						ctxVars[id.Name] = true
+					}
+				}
+			}
+		}
+		return true
+	})
+	// x = v, x = v.Attribute(), x = v.AttributeExpr with v a context variable
+	for changed := true; changed; {
+		changed = false
+		walk(fd.Body, func(x ast.Node) bool {
+			as, ok := x.(*ast.AssignStmt)
+			if !ok || len(as.Lhs) != 1 || len(as.Rhs) != 1 {
+				return true
+			}
+			lhs, ok := as.Lhs[0].(*ast.Ident)
+			if !ok || ctxVars[lhs.Name] {
+				return true
+			}
+			src := as.Rhs[0]
+			if c, ok := src.(*ast.CallExpr); ok && len(c.Args) == 0 {
+				if se, ok := c.Fun.(*ast.SelectorExpr); ok && se.Sel.Name == "Attribute" {
+					src = se.X
+				}
+			}
+			if se, ok := src.(*ast.SelectorExpr); ok && se.Sel.Name == "AttributeExpr" {
+				src = se.X
+			}
+			if id, ok := src.(*ast.Ident); ok && ctxVars[id.Name] {
+				ctxVars[lhs.Name] = true
+				changed = true
+			}
+			return true
+		})
+	}
+	isCtxType := func(x ast.Expr) bool {
+		se, ok := x.(*ast.SelectorExpr)
+		if !ok || se.Sel.Name != "Type" {
+			return false
+		}
+		id, ok := se.X.(*ast.Ident)
+		return ok && ctxVars[id.Name]
+	}
+	guards := map[string]bool{}
+	walk(fd.Body, func(x ast.Node) bool {
+		switch n := x.(type) {
+		case *ast.TypeAssertExpr:
+			if n.Type != nil && isCtxType(n.X) {
+				guards["exact "+strings.TrimPrefix(typeString(n.Type), "*expr.")] = true
+			}
+		case *ast.TypeSwitchStmt:
+			var ta *ast.TypeAssertExpr
+			switch s := n.Assign.(type) {
+			case *ast.AssignStmt:
+				ta, _ = s.Rhs[0].(*ast.TypeAssertExpr)
+			case *ast.ExprStmt:
+				ta, _ = s.X.(*ast.TypeAssertExpr)
+			}
+			if ta != nil && isCtxType(ta.X) {
+				for _, cl := range n.Body.List {
+					for _, t := range cl.(*ast.CaseClause).List {
+						guards["exact "+strings.TrimPrefix(typeString(t), "*expr.")] = true
+					}
+				}
+			}
+		case *ast.CallExpr:
+			if se, ok := n.Fun.(*ast.SelectorExpr); ok && len(n.Args) == 1 && isCtxType(n.Args[0]) {
+				if id, ok := se.X.(*ast.Ident); ok && id.Name == "expr" && strings.HasPrefix(se.Sel.Name, "Is") {
+					guards["is "+strings.TrimPrefix(se.Sel.Name, "Is")] = true
+				}
+			}
+		}
+		return true
+	})
+	for gd := range guards {
+		e.Guards = append(e.Guards, gd)
+	}
+	sort.Strings(e.Guards)
 	// delegation
 	var checking []*entry
 	for _, d := range delegates {
@@ -329,6 +446,9 @@ func (a *analyzer) analyze1(name string) *entry {
 			e.Kind = "KStrict"
 		}
 		e.Nested = sites > 1 || incompat > 1 || len(checking) > 0
+		for _, c := range checking {
+			e.Guards = mergeGuards(e.Guards, c.Guards)
+		}
 		return e
 	}
 	if incompat > 0 {
@@ -340,13 +460,37 @@ func (a *analyzer) analyze1(name string) *entry {
 	}
 	first := checking[0]
 	for _, c := range checking[1:] {
-		if c.Kind != first.Kind || strings.Join(c.Types, ",") != strings.Join(first.Types, ",") {
+		if c.Kind != first.Kind || strings.Join(c.Types, ",") != strings.Join(first.Types, ",") || strings.Join(c.Guards, ",") != strings.Join(first.Guards, ",") {
 			return unknown("delegates to functions with different context checks: " + strings.Join(e.Via, ", "))
 		}
 		first.Nested = first.Nested || c.Nested
 	}
 	e.Kind, e.Types, e.Nested = first.Kind, first.Types, first.Nested
+	e.Guards = mergeGuards(e.Guards, first.Guards)
 	return e
+}
+
+func mergeGuards(a, b []string) []string {
+	m := map[string]bool{}
+	for _, x := range a {
+		m[x] = true
+	}
+	for _, x := range b {
+		m[x] = true
+	}
+	var out []string
+	for x := range m {
+		out = append(out, x)
+	}
+	sort.Strings(out)
+	return out
+}
+
+// guard -> constructor of Model.dguard
+var coqGuard = map[string]string{
+	"exact expr.UserType": "GExactUserType",
+	"exact Object": "GExactObject", "exact Union": "GExactUnion", "exact Map": "GExactMap", "exact Array": "GExactArray",
+	"is Object": "GIsObject", "is Union": "GIsUnion", "is Map": "GIsMap", "is Array": "GIsArray", "is Primitive": "GIsPrimitive",
 }
 
 func main() {
@@ -407,6 +551,14 @@ func main() {
 				ts = append(ts, coqType[t])
 			}
 		}
+		var gs []string
+		for _, gd := range e.Guards {
+			c, ok := coqGuard[gd]
+			if !ok {
+				c = "GOtherGuard"
+			}
+			gs = append(gs, c)
+		}
 		nested := "false"
 		if e.Nested {
 			nested = "true"
@@ -419,7 +571,7 @@ func main() {
 		if e.Why != "" {
 			cm = "  (* " + strings.ReplaceAll(strings.ReplaceAll(e.Why, "(*", "( *"), "*)", "* )") + " *)"
 		}
-		fmt.Fprintf(&b, "  mkF %q %s %s [%s]%s%s\n", e.Name, e.Kind, nested, strings.Join(ts, "; "), sep, cm)
+		fmt.Fprintf(&b, "  mkF %q %s %s [%s] [%s]%s%s\n", e.Name, e.Kind, nested, strings.Join(ts, "; "), strings.Join(gs, "; "), sep, cm)
 	}
 	b.WriteString("].\n")
 	if *out != "" {
